@@ -12,6 +12,7 @@ from typing import Dict, List, Optional, Set, Tuple
 
 from ..model import Repo, ClassInfo, FuncInfo, AnalysisError, norm, parent, ancestors, enclosing_stmt, const_str
 from ..report import Ctx, RuleResult
+from ..exprs import has_pat, find_pat
 
 V = 'lark.visitors:'
 
@@ -109,15 +110,16 @@ def run_parity(ctx: Ctx) -> RuleResult:
             m = k.methods.get(mname)
             ok = m is not None
             if ok:
-                body = ' '.join(norm(s) for s in m.node.body)
+                nodes = m.body_nodes()
                 if mname == '_transform_tree':
-                    ok = 'self._call_userfunc(tree' in body
+                    calls = find_pat(nodes, 'self._call_userfunc($t)') + find_pat(nodes, 'self._call_userfunc($t, $$c)')
+                    ok = bool(calls)
                     if cname == 'Transformer_InPlaceRecursive':
-                        ok = ok and 'tree.children = list(self._transform_children(tree.children))' in body and \
-                            body.index('tree.children =') < body.index('self._call_userfunc(')
+                        asg = find_pat(nodes, '$t.children = list(self._transform_children($t.children))')
+                        ok = ok and bool(asg) and asg[0][0].lineno < calls[0][0].lineno and asg[0][1]['t'] == calls[0][1]['t']
                 else:
-                    ok = 'iter_subtrees()' in body and 'subtree.children = list(self._transform_children(subtree.children))' in body \
-                        and 'self._transform_tree(tree)' in body
+                    loops = find_pat(nodes, 'for $s in $t.iter_subtrees():\n    $s.children = list(self._transform_children($s.children))')
+                    ok = bool(loops) and has_pat(nodes, 'return self._transform_tree($t)', {'t': loops[0][1]['t']})
             res.ob('%s %s.%s' % (k.module.loc(k.node), k.qual, mname), 'children are replaced by their transformed values before the '
                                                                        'node itself is dispatched', ok)
             if not ok:
@@ -125,30 +127,34 @@ def run_parity(ctx: Ctx) -> RuleResult:
                             'before dispatching the node' % (cname, mname), construct='%s.%s' % (cname, mname), module=k.module)
     # iter_subtrees is bottom-up (children before parents), each node once
     its = repo.func('lark.tree:Tree.iter_subtrees')
-    body = ' '.join(norm(s) for s in its.node.body)
-    ok = 'reversed(list(subtrees.values()))' in body and 'id(c) not in subtrees' in body
+    ok = has_pat(its.body_nodes(), 'return reversed(list($d.values()))') and has_pat(its.body_nodes(), 'id($c) not in $d')
     res.ob('%s %s' % (its.loc(), its.qual), 'iter_subtrees yields each node once, children before parents', ok)
     if not ok:
         res.finding(its, its.node, 'iter_subtrees no longer yields every node once in bottom-up order', construct='iter_subtrees')
     # ---- dispatch functions -------------------------------------------------------------------------
     cu = T.methods['_call_userfunc']
-    body = ' '.join(norm(s) for s in cu.node.body)
-    ok = 'getattr(self, tree.data)' in body and 'self.__default__(tree.data, children, tree.meta)' in body \
-        and 'f.visit_wrapper(f, tree.data, children, tree.meta)' in body and 'f(children)' in body
+    nodes = cu.body_nodes()
+    g_ = find_pat(nodes, '$f = getattr(self, $t.data)')
+    ok = bool(g_)
+    if ok:
+        b_ = g_[0][1]
+        ok = has_pat(nodes, 'return self.__default__($t.data, $c, $t.meta)', b_) \
+            and has_pat(nodes, 'return $f.visit_wrapper($f, $t.data, $c, $t.meta)', b_) and has_pat(nodes, 'return $f($c)', b_)
     res.ob('%s %s' % (cu.loc(), cu.qual), 'rule dispatch: method named tree.data, v_args wrapper, else __default__(data, children, meta)', ok)
     if not ok:
         res.finding(cu, cu.node, 'Transformer._call_userfunc dispatch changed shape', construct='dispatch-tree')
     ct = T.methods['_call_userfunc_token']
-    body = ' '.join(norm(s) for s in ct.node.body)
-    ok = 'getattr(self, token.type)' in body and 'self.__default_token__(token)' in body and 'f(token)' in body
+    nodes = ct.body_nodes()
+    g_ = find_pat(nodes, '$f = getattr(self, $t.type)')
+    ok = bool(g_) and has_pat(nodes, 'return self.__default_token__($t)', g_[0][1]) and has_pat(nodes, 'return $f($t)', g_[0][1])
     res.ob('%s %s' % (ct.loc(), ct.qual), 'token dispatch: method named token.type, else __default_token__', ok)
     if not ok:
         res.finding(ct, ct.node, 'Transformer._call_userfunc_token dispatch changed shape', construct='dispatch-token')
     # ---- the embedded path ----------------------------------------------------------------------------
     glc = repo.func('lark.parser_frontends:_get_lexer_callbacks')
-    body = ' '.join(norm(s) for s in glc.node.body)
+    tparam = glc.positional_names()[0] if glc.positional_names() else 'transformer'
     guard = [n for n in glc.body_nodes() if isinstance(n, ast.If) and '__visit_tokens__' in norm(n.test)]
-    ok = bool(guard) and 'getattr(transformer, terminal.name, None)' in body
+    ok = bool(guard) and has_pat(glc.body_nodes(), 'getattr($tr, $term.name, None)', {'tr': tparam})
     res.ob('%s %s' % (glc.loc(), glc.qual), 'embedded token callbacks: method named like the terminal, only when the transformer visits tokens', ok)
     if not ok:
         res.finding(glc, glc.node, 'the embedded path installs token callbacks without honouring the transformer\'s __visit_tokens__ '
@@ -159,7 +165,7 @@ def run_parity(ctx: Ctx) -> RuleResult:
         t = g0.test
         neg = isinstance(t, ast.UnaryOp) and isinstance(t.op, ast.Not)
         skips = any(isinstance(s, ast.Return) for s in g0.body) if neg else True
-        dflt_true = "getattr(transformer, '__visit_tokens__', True)" in norm(t)
+        dflt_true = has_pat(list(ast.walk(t)), "getattr($tr, '__visit_tokens__', True)", {'tr': tparam})
         ok = skips and dflt_true
         res.ob('%s %s' % (glc.loc(), glc.qual), 'the guard defaults to visiting tokens (plain objects without the flag) and skips otherwise', ok)
         if not ok:
@@ -171,28 +177,31 @@ def run_parity(ctx: Ctx) -> RuleResult:
         lp = lps[0]
         conts = [x for x in ast.walk(lp) if isinstance(x, (ast.Continue, ast.Break))]
         ifs = [x for x in ast.walk(lp) if isinstance(x, ast.If)]
-        ok = not conts and len(ifs) == 1 and norm(ifs[0].test) in ('callback is not None', 'callback') and norm(lp.iter) == 'terminals'
+        tsparam = glc.positional_names()[1] if len(glc.positional_names()) > 1 else 'terminals'
+        ok = not conts and len(ifs) == 1 and (has_pat([ifs[0].test], '$cb is not None') or isinstance(ifs[0].test, ast.Name)) \
+            and norm(lp.iter) == tsparam
     res.ob('%s %s' % (glc.loc(), glc.qual), 'a token callback is installed for every terminal that has a method of its name (no other filter)', ok)
     if not ok:
         res.finding(glc, glc.node, 'the embedded path filters which terminals get their callback (a post-hoc transform calls the method for '
                                    'every token of that type that is in the tree, e.g. _TERMINALS kept by !rules)', construct='embedded:terminal-filter')
     ft = repo.func('lark.parsers.lalr_parser_state:ParserState.feed_token')
     body = ' '.join(norm(s) for s in ft.body_nodes() if isinstance(s, ast.Expr))
-    ok = any('callbacks[token.type](token)' in norm(n) and 'token.type not in callbacks' in norm(n) for n in ft.body_nodes()
-             if isinstance(n, ast.IfExp))
+    ok = has_pat(ft.body_nodes(), '$t if $t.type not in $cb else $cb[$t.type]($t)') or \
+        has_pat(ft.body_nodes(), '$cb[$t.type]($t) if $t.type in $cb else $t')
     res.ob('%s %s' % (ft.loc(), ft.qual), 'on shift, a terminal callback replaces the token iff one is registered for its type', ok)
     if not ok:
         res.finding(ft, ft.node, 'the LALR driver does not apply the terminal callback exactly for registered token types', construct='embedded:shift')
     cc = repo.func('lark.parse_tree_builder:ParseTreeBuilder.create_callback')
-    body = ' '.join(norm(s) for s in cc.node.body)
-    ok = "getattr(transformer, user_callback_name)" in body and "getattr(f, 'visit_wrapper', None)" in body \
-        and 'partial(default_callback, user_callback_name)' in body
+    nodes = cc.body_nodes()
+    g_ = find_pat(nodes, '$f = getattr($tr, $name)')
+    ok = bool(g_) and has_pat(nodes, "getattr($f, 'visit_wrapper', None)", {'f': g_[0][1]['f']}) \
+        and has_pat(nodes, '$f = partial($dc, $name)', {'f': g_[0][1]['f'], 'name': g_[0][1]['name']})
     res.ob('%s %s' % (cc.loc(), cc.qual), 'embedded rule callbacks: method named like the node, v_args wrapper, else default with the same name', ok)
     if not ok:
         res.finding(cc, cc.node, 'create_callback no longer looks up the user method by the node name / falls back to the default with it',
                     construct='embedded:rule')
     # wrappers applied inner-to-outer in list order; user callback innermost
-    ok = any(isinstance(n, ast.For) and norm(n.iter) == 'wrapper_chain' and any(norm(s) == 'f = w(f)' for s in n.body) for n in cc.body_nodes())
+    ok = has_pat(cc.body_nodes(), 'for $w in $chain:\n    $f = $w($f)')
     res.ob('%s %s' % (cc.loc(), cc.qual), 'the shaping chain wraps the user callback in list order', ok)
     if not ok:
         res.finding(cc, cc.node, 'the shaping wrappers are not applied around the user callback in chain order', construct='embedded:chain')
@@ -220,7 +229,9 @@ def run_node_name(ctx: Ctx) -> RuleResult:
     n = 0
     for fq, var in sites:
         f = repo.func(fq)
-        defs = [x.value for x in f.body_nodes() if isinstance(x, ast.Assign) and any(isinstance(t, ast.Name) and t.id == var for t in x.targets)]
+        # the (unique) `a or b or c` chain of attribute reads that ends in `.origin.name`
+        defs = [x for x in f.body_nodes() if isinstance(x, ast.BoolOp) and isinstance(x.op, ast.Or)
+                and any(norm(v).endswith('origin.name') for v in x.values)]
         ok = len(defs) == 1
         parts = _name_parts(defs[0]) if ok else None
         ok = ok and parts == want
@@ -231,7 +242,7 @@ def run_node_name(ctx: Ctx) -> RuleResult:
                         'callback names depending on the engine' % (parts, want), construct='node-name:%s' % parts)
     # the expanded-single-child exception must not apply to aliased alternatives
     ib = repo.func('lark.parse_tree_builder:ParseTreeBuilder._init_builders')
-    ok = any('expand_single_child and (not rule.alias)' in norm(x) for x in ib.body_nodes() if isinstance(x, ast.BoolOp))
+    ok = has_pat(ib.body_nodes(), '($e and not $r.alias) and ExpandSingleChild') or has_pat(ib.body_nodes(), '$e and (not $r.alias) and ExpandSingleChild')
     res.ob('%s %s' % (ib.loc(), ib.qual), '?rule inlining is disabled for aliased alternatives', ok)
     if not ok:
         res.finding(ib, ib.node, 'ExpandSingleChild is no longer disabled for aliased alternatives', construct='expand1-alias')
